@@ -134,10 +134,14 @@ func ruleR09_2(w *World, r *Report) {
 						notSucc++
 					}
 				}
-				if l.Kind == "bool" && len(fn.Params) >= 4 && l.X == ssa.Value(fn.Params[3]) {
+				lx := l.X
+				if l.Kind == "bool" {
+					lx = throughHelperParam(l.X) // the flag as a parameter of a new helper stands for the caller's argument
+				}
+				if l.Kind == "bool" && len(fn.Params) >= 4 && lx == ssa.Value(fn.Params[3]) {
 					local++
 				}
-				if l.Kind == "bool" && len(fn.Params) >= 3 && l.X == ssa.Value(fn.Params[2]) && l.Pol {
+				if l.Kind == "bool" && len(fn.Params) >= 3 && lx == ssa.Value(fn.Params[2]) && l.Pol {
 					withOp++
 				}
 			}
@@ -229,8 +233,19 @@ func ruleR09_2(w *World, r *Report) {
 	// unlock deferred on the owner path
 	okUnlock := false
 	forEachInstr(fn, func(in ssa.Instruction) {
-		if d, ok := in.(*ssa.Defer); ok && calleeName(d) == "unlock" {
-			okUnlock = instrDominates(d, deliver.(ssa.Instruction)) && instrDominates(d, rollback.(ssa.Instruction))
+		if d, ok := in.(*ssa.Defer); ok {
+			// defer its.unlock(), or the same inlined as a deferred closure that unlocks the datatype mutex
+			releases := calleeName(d) == "unlock"
+			if b := startedBody(&d.Call); b != nil && !releases {
+				for _, c := range callsNamed(b, "Unlock") {
+					if recv, _ := recvAndArgs(c); recv != nil && strings.HasSuffix(canonName(recv), ".mutex") {
+						releases = true
+					}
+				}
+			}
+			if releases {
+				okUnlock = instrDominates(d, deliver.(ssa.Instruction)) && instrDominates(d, rollback.(ssa.Instruction))
+			}
 		}
 	})
 	r.Check(okUnlock, owner+"/unlock deferred", u.Pos(fn.Pos()), "unlock deferred before commit/rollback", "the datatype lock is not released by a defer placed before the commit and rollback branches")
